@@ -9,6 +9,7 @@ mod engine;
 mod json;
 mod models;
 mod pacer;
+mod probes;
 mod props;
 mod rig;
 mod sched;
